@@ -33,6 +33,7 @@ NT = (-10.00001, -10.000005, -10, -5, 5, 10, 10.000005, 10.00001)      # near ti
 PARAMS = [(206e3, 1184.0, 0.187, 3.5), (70e3, 600.0, 0.128, 2.0)]
 LAWKINDS = ("binned-neuber", "binned-seegerbeste", "exact-neuber")
 RATIOS = (0.5, 1.0, 1.3, 2.0)
+EDGE_MAXIMA = (300.0, 123.0, 260.0)
 TEMPLATES = [
     [100, -100, 100, -200, -100, -200, 200, 0, 200, -200],
     [100, 0, 80, 20, 60, 40],
@@ -53,6 +54,7 @@ def bounds(tier):
                 "other_laws": {"laws": "5 further (law, parameter) configurations", "n": [2, 4]},
                 "near_ties": {"alphabet": [SCALE * v for v in NT], "n": [2, 3], "law": "binned-neuber/params0"},
                 "batch": {"ratios": RATIOS, "point_sets": "all ordered subsets of size 1..3 (40)", "sequences": "8 templates; 6 point sets x all n<=3 sequences"},
+                "batch_class_edges": {"maxima": EDGE_MAXIMA, "sequences": "[k*M/100, -M] and [-M, k*M/100] for k=1..99, points (1, 2)"},
                 "mirror": {"n": [2, 4]}}
     return {"main": {"law": "all 6 (law, parameter) configurations", "alphabet": [SCALE * a for a in A5], "n": [2, 6]},
             "near_ties": {"alphabet": [SCALE * v for v in NT], "n": [2, 4], "law": "binned-neuber/params0"},
@@ -89,6 +91,12 @@ def shards(tier):
     for t in TEMPLATES:
         for block in chunked(sets, 10):
             out.append(("batch", [float(v) for v in t], block))
+    # class-edge sweep: loads and load ranges exactly on every class edge of the first point's look-up table, for maxima
+    # whose edges k/100*max are not exactly representable (where a table look-up and an arithmetic class index part ways)
+    for M in EDGE_MAXIMA if tier == "quick" else EDGE_MAXIMA + (70.0, 1266.25):
+        sweep = [[k * M / 100.0, -M] for k in range(1, 100)] + [[-M, k * M / 100.0] for k in range(1, 100)]
+        for block in chunked(sweep, 25):
+            out.append(("batch-short", block, [(1.0, 2.0)]))
     short = [s for n in (2, 3) + ((4,) if tier != "quick" else ()) for s in _seqs(n)]
     few = [(1.0, 2.0), (2.0, 1.0), (1.3, 0.5), (0.5, 1.0, 2.0), (2.0, 1.3, 1.0), (1.0, 0.5, 1.3)]
     for block in chunked(short, 20):
